@@ -168,6 +168,12 @@ def tilt_slot_agreement(chk, repo, clause):
     if reads == 0:
         raise AnalysisError('Plane.multiply: no Field built from self.tilt found')
     ok = reads_all or not grows
+    # every fit removes its tip/tilt from the OPD for good, so the record of an earlier fit (or a tilt the user
+    # assigned) must survive a later fit: the writer adds to the list, it never replaces it
+    chk.ob(clause, 'D-cardinality', 'plane.Plane.tilt', 'fit_tilt adds to the recorded tilts, it never replaces the record',
+           not replaced and bool(grows), f'{len(grows)} growth site(s)' + ('; the list is re-assigned on a fitting path: what an '
+                                                                         'earlier fit removed from the OPD is lost' if replaced else ''),
+           fw.loc())
     chk.ob(clause, 'D-cardinality', 'plane.Plane.tilt', 'writer fit_tilt vs reader multiply', ok,
            (f'fit_tilt grows the list on every call ({len(grows)} growth site(s), e.g. {grows[0].loc()}) but '
             + detail + ': tilt fitted after an OPD update is never applied') if not ok else
